@@ -71,6 +71,10 @@ def parse_output(res, out, should_panic=False):
                 res.covers_sat.append(c)
             else:
                 res.covers_unsat.append(c)
+        elif c.status == "FAILURE" and c.desc.startswith("NaN on "):
+            # CBMC's --nan-check reports that a float operation CAN produce NaN (inf - inf, 0/0).  In Rust that
+            # is defined IEEE-754 behaviour, not a panic and not UB: counted, never a failed check.
+            res.nan_reports = getattr(res, "nan_reports", 0) + 1
         elif c.status == "FAILURE":
             res.failed.append(c)
         elif c.status == "UNDETERMINED":
@@ -110,6 +114,8 @@ def parse_output(res, out, should_panic=False):
     if should_panic and failed and not res.failed and res.expected_panics and res.undetermined == 0 \
             and "other than panics" not in out:
         ok = True
+    if failed and not res.failed and getattr(res, "nan_reports", 0) and res.undetermined == 0 and not should_panic:
+        ok = True   # the only FAILURE lines were NaN reports
     if ok and not res.failed:
         if res.covers_unsat:
             res.verdict = "inconclusive"
